@@ -320,6 +320,10 @@ def normalise_mir(model: IterModel, name: str) -> str:
     txt = re.sub(r"\b%s\b" % re.escape(ename), "ENUM", txt)
     txt = re.sub(r'"fn_crate": "[^"]*"', '"fn_crate": "_"', txt)
     txt = re.sub(r"[a-z0-9_]+::(ENUM|ITER)", r"\1", txt)
+    # the module the enum lives in (paths of the derive's own constants and helper fns carry it)
+    mod = "::".join(model.info.def_path.split("::")[:-1])
+    if mod:
+        txt = re.sub(r"\b%s::" % re.escape(mod), "", txt)
     return txt
 
 
